@@ -196,6 +196,8 @@ def check_allocators(ctx, prog):
 
 def check(ctx):
     prog = ctx.prog("posix-mt")
+    from .. import rulelib
+    rulelib.ENV_FAULTS = True      # leaks must not appear either when a read on a valid pipe fails for an odd reason (EIO ...)
     check_closer(ctx, prog)
     check_start_path(ctx, prog)
     R.start_closure(ctx, prog, "C05.O2s")
